@@ -717,6 +717,8 @@ namespace occa {
       }
 
       push();
+      // Skip the opening [/*], its * cannot close the comment: [/*/ ... */]
+      fp.start += 2;
 
       bool finishedComment = false;
       while (!finishedComment && *fp.start != '\0') {
